@@ -11,6 +11,7 @@ C02.h memory/storage simplification preserves the access sequence's effect
 C02.i exactly the dead loads leave the access order
 """
 import ast
+import itertools
 import re
 
 from ..core.flow import call_name, calls_in, is_name, reaching_defs
@@ -571,11 +572,21 @@ def rule_h(ctx, out):
         else:
             fams = [(3, sym + (["32"] if loc == "memory" else ["1"]), ["s(2)", "7"], False, True),
                     (2, ["s(0)", "0", "1"], ["s(2)"], True, False)]
+        # forwarding windows of 5 accesses (store A ; 3 accesses ; load A): quick over two symbolic addresses and one constant value,
+        # thorough with a constant address and a symbolic value as well
+        # (constant addresses matter: only there the alias test answers "independent", and a pardon can land on the wrong access)
+        const = ["64", "s(1)", "0"] if loc == "memory" else ["1", "s(1)", "0"]
+        if ctx.tier == "thorough":
+            fams.append(("windows", 3, sym + (["32"] if loc == "memory" else ["1"]), ["7", "s(3)"], True))
+            fams.append(("windows", 3, const, ["7", "s(3)"], True))
+        else:
+            fams.append(("windows", 3, sym, ["7"], True))
+            fams.append(("windows", 3, const, ["7"], True))
         for params in fams:
             if ctx.tier == "thorough":
                 st, fl = mr.examine_parallel(ctx, entry, GO, loc, params)
             else:
-                st, fl = mr.examine(eng, loc, mr.sequences(loc, *params))
+                st, fl = mr.examine(eng, loc, mr.windows(loc, *params[1:]) if params[0] == "windows" else mr.sequences(loc, *params))
             for k in total:
                 total[k] += st[k]
             fails += [(loc, s_, r) for s_, r in fl]
@@ -720,7 +731,70 @@ def rule_j(ctx, out):
     out.samples.append({"sequences_examined": total["sequences"], "merged_and_equivalent": good})
 
 
+def rule_k(ctx, out):
+    """unify_keccak_instructions merges two hashes into one (every use of the second becomes a use of the first).  Sound only if both read
+    the same bytes: same offset, same *length*, and no write between them that may touch the range.  The function is interpreted on every
+    pair of hashes (offsets and lengths equal or different) with nothing, a word store or a byte store between them; where the second hash
+    disappears, the bytes the two read on the reference memory model must be identical under every address assignment of the grid."""
+    from ..core import memrules as mr
+    from ..core.interp import ModuleInterp
+    from ..core.minieval import Unsupported, Raised
+    entry = ctx.func(f"{GO}.unify_keccak_instructions")
+    mi = ModuleInterp(ctx, max_steps=400000)
+    env = mi.module_env(GO)
+    offs, lens = ["s(0)", "s(1)", "0"], ["32", "64"]
+    mids = [None] + [((a, "s(2)", k), 2) for a in ("s(0)", "s(1)", "0", "40", "100") for k in ("mstore", "mstore8")]
+    n = merged = 0
+    seen = set()
+    for a1, l1, a2, l2, mid in itertools.product(offs, lens, offs, lens, mids):
+        h1, h2 = ((a1, l1, "keccak2560"), 2), ((a2, l2, "keccak2561"), 2)
+        before = [h1] + ([mid] if mid else []) + [h2]
+        work = list(before)
+        env.update(extra_dep_info={}, debug=False, u_dict={"u0": h1, "u1": h2}, variable_content={"o0": "u0", "o1": "u1"}, gas_store_op=0, gas_memory_op=0,
+                   discount_op=0, rule_applied=False, rules_applied=[], memory_opt=[False] * 3, storage_opt=[False] * 3, mem_delete_pos=[], sto_delete_pos=[],
+                   non_aliasing_disabled=False, memory_order=[], storage_order=[])
+        n += 1
+        try:
+            mi.call(entry, work, [], "memory")
+        except Raised as e:
+            key = f"keccak-unification:raises:{e.what}"
+            if key not in seen:
+                seen.add(key)
+                out.bad(key, f"unify_keccak_instructions raises {e.what} on [{mr.show(before)}]", where(entry))
+            continue
+        except Unsupported as e:
+            raise AnalysisError(f"unify_keccak_instructions cannot be interpreted on [{mr.show(before)}]: {e}")
+        if len(work) == len(before):
+            out.ok({"sequence": mr.show(before), "merged": False}) if n % 40 == 0 else None
+            out.instances += 0 if n % 40 == 0 else 1
+            out.satisfied += 0 if n % 40 == 0 else 1
+            continue
+        merged += 1
+        what = None
+        for sigma in mr.assignments(before):
+            ob = {}
+            mr.Ref("memory", sigma, {}).run(before, ob)
+            if ob["keccak2560"] != ob["keccak2561"]:
+                what = (sigma, len(ob["keccak2560"]), len(ob["keccak2561"]))
+                break
+        if what is None:
+            out.ok({"sequence": mr.show(before), "merged": True})
+            continue
+        kind = "length-differs" if l1 != l2 else "offset-differs" if a1 != a2 else f"across-{mid[0][-1]}"
+        key = f"keccak-unification:{kind}"
+        if key in seen:
+            out.instances += 1
+            continue
+        seen.add(key)
+        out.bad(key, f"unify_keccak_instructions merges the two hashes of [{mr.show(before)}] (the second one disappears and its uses read the first), but "
+                f"with the addresses {what[0]} they hash different bytes ({what[1]} vs {what[2]} bytes read)", where(entry), {"sequence": mr.show(before)})
+    out.info["keccak_unification"] = {"pairs": n, "merged": merged}
+    if merged < 6:
+        raise AnalysisError(f"unify_keccak_instructions merged only {merged} of {n} pairs of hashes")
+
+
 RULES = [
+    ("C02.k", "merging two hashes needs the same offset, the same length and no possibly-overlapping write between them", 6, rule_k),
     ("C02.j", "merging two loads of one address needs no possibly-overlapping write between them (byte stores included)", 10, rule_j),
     ("C02.i", "exactly the dead loads leave the access order", 150, rule_i),
     ("C02.h", "memory/storage simplification preserves the access sequence's effect", 500, rule_h),
